@@ -6,6 +6,7 @@ import Ivg.Gen.Tie.EncoderFields
 import Ivg.Gen.Tie.GradientFields
 import Ivg.Gen.Tie.RendererFields
 import Ivg.Gen.Tie.Code.RenderRegs
+import Ivg.Gen.Tie.Code.Retarget
 import Ivg.Obligations
 /-!
 # C17 — the output of an Encoder / Renderer depends only on the calls since its last Reset
@@ -244,4 +245,8 @@ end Ivg.Props.C17
   Ivg.Gen.Tie.renderer_SetNReg_code_tie,
   Ivg.Gen.Tie.positiveInfinity_code_tie,
   Ivg.Gen.Tie.renderer_Reset_code_tie,
-  Ivg.Gen.Tie.renderer_Reset_code_tie_frame]
+  Ivg.Gen.Tie.renderer_Reset_code_tie_frame,
+  -- regenerated code (translator): SetRasterizer recomputes the transform from the current viewBox and the new rectangle
+  Ivg.Gen.Tie.rectangle_Empty_code_tie,
+  Ivg.Gen.Tie.renderer_SetRasterizer_code_tie,
+  Ivg.Gen.Tie.renderer_SetRasterizer_code_tie_frame]
